@@ -4,6 +4,7 @@
 //!   engine_harness replay <progfile> <outdir>                        run one program file (corpus / replay)
 mod exec;
 mod gen;
+mod mutate;
 mod oracle;
 mod prog;
 
@@ -14,6 +15,7 @@ fn main() {
         Some("exec") => exec::main(&args[2..]),
         Some("gen") => gen::main(&args[2..]),
         Some("replay") => gen::replay(&args[2..]),
+        Some("mutate") => mutate::main(&args[2..]),
         _ => {
             eprintln!("usage: engine_harness exec|gen|replay ...");
             std::process::exit(2);
